@@ -321,6 +321,11 @@ func (w *World) execMark(op Op) {
 		w.c.Probe("mark-forced-fallback")
 	}
 	w.afterMutation(oldTip, nil, "mark")
+	// A marking may rightly lower the tip's work below that of the last completed Save; the floor that
+	// C12 holds crash images against (stated for histories of accepted headers) follows it down.
+	if w.lastSaveTip != nil && w.tip != nil && w.tip.Work.Cmp(w.lastSaveTip.Work) < 0 {
+		w.lastSaveTip = w.tip
+	}
 }
 
 // execUnmark: A=serial. Removes the marking and resubmits the header and what was built on it.
